@@ -292,6 +292,7 @@ func checkC14(p *Prog, r *Report) {
 	} else {
 		r.Fail(kp("WIRE", "TxConfig=DefaultSignModes"), "anchor", "app/params", "MakeEncodingConfig not found")
 	}
+	wireAnte(p, r, "C14")
 	// D3 pairs
 	var lm []*types.Named
 	for _, m := range msgs {
